@@ -1,5 +1,5 @@
 (* Proofs/PolicyCommon.v — lemmas shared by the policy contract proofs. *)
-From Fibre Require Import Common.Base Cache.PolicySpec.
+From Fibre Require Import Common.Base Cache.PolicySpec Cache.PolicySieve.
 
 Lemma filter_perm {A} (f : A -> bool) (a b : list A) :
   Permutation a b -> Permutation (filter f a) (filter f b).
@@ -108,14 +108,14 @@ Proof.
   cbn [fst] in *. exact IH.
 Qed.
 
-Lemma contract_lift (clause : list kc -> list kc -> N -> N -> Prop) (P : policy)
-      (Inv : pst P -> Prop) :
+Lemma contractG_lift (acc adm : list kc -> list kc -> N -> N -> Prop)
+      (ev : list kc -> list kc -> N -> list N -> N -> Prop) (P : policy) (Inv : pst P -> Prop) :
   Inv (pinit P) ->
   (forall s cl, Inv s -> Inv (fst (pstep P s cl))) ->
   (forall s, Inv s -> NoDup (keys (ptracked P s))) ->
   (forall s cl, Inv s ->
-     let '(s', o) := pstep P s cl in step_ok clause (ptracked P s) cl o (ptracked P s')) ->
-  contract clause P.
+     let '(s', o) := pstep P s cl in step_okG acc adm ev (ptracked P s) cl o (ptracked P s')) ->
+  contractG acc adm ev P.
 Proof.
   intros Hinit Hstep Hnd Hok cs.
   assert (HI : Inv (pstate_after P cs)).
@@ -124,4 +124,204 @@ Proof.
     destruct (pstep P (fst (prun P (pinit P) r)) c) as [s1 o] eqn:E.
     cbn [fst]. specialize (Hstep _ c IH). rewrite E in Hstep. exact Hstep. }
   cbv zeta. split; [apply Hnd; exact HI | intros cl; apply Hok; exact HI].
+Qed.
+
+Lemma contract_lift (clause : list kc -> list kc -> N -> N -> Prop) (P : policy)
+      (Inv : pst P -> Prop) :
+  Inv (pinit P) ->
+  (forall s cl, Inv s -> Inv (fst (pstep P s cl))) ->
+  (forall s, Inv s -> NoDup (keys (ptracked P s))) ->
+  (forall s cl, Inv s ->
+     let '(s', o) := pstep P s cl in step_ok clause (ptracked P s) cl o (ptracked P s')) ->
+  contract clause P.
+Proof. apply contractG_lift. Qed.
+
+(** weakening between clause sets *)
+Lemma evict_ok_core T T' n vs c : evict_ok T T' n vs c -> evict_core T T' vs c.
+Proof. intros [A [B [C [D _]]]]. repeat split; assumption. Qed.
+
+Lemma evict_core_ok T T' n vs c :
+  evict_core T T' vs c -> (n <= total T -> n <= c) -> evict_ok T T' n vs c.
+Proof. intros [A [B [C D]]] E. repeat split; assumption. Qed.
+
+(** small list facts used by the segmented policies *)
+Lemma rm_app k a b : rm k (a ++ b) = rm k a ++ rm k b.
+Proof. rewrite !rm_filter. apply filter_app. Qed.
+
+Lemma lookup_app k a b :
+  lookup k (a ++ b) = match lookup k a with Some c => Some c | None => lookup k b end.
+Proof.
+  induction a as [|[k' c'] t IH]; cbn [app lookup]; [reflexivity|].
+  destruct (N.eqb k k'); [reflexivity | exact IH].
+Qed.
+
+Lemma without_perm vs a b : Permutation a b -> Permutation (without vs a) (without vs b).
+Proof. unfold without. apply filter_perm. Qed.
+
+Lemma rm_perm k a b : Permutation a b -> Permutation (rm k a) (rm k b).
+Proof. rewrite !rm_filter. apply filter_perm. Qed.
+
+(** The generic outer eviction loop ([evict_loop] of PolicySieve.v) under a state
+    invariant: every iteration removes one tracked entry.  Used by Random and Arc
+    (Sieve/Clock use the invariant-free form in PolicySieveProofs.v). *)
+Section LoopInv.
+  Context {St : Type} (one : St -> option (ent * St)) (tr : St -> list kc) (Inv : St -> Prop).
+  Hypothesis one_some : forall s v s', Inv s -> one s = Some (v, s') ->
+                                       Permutation (tr s) (ekc v :: tr s') /\ Inv s'.
+
+  Lemma evict_loop_inv fuel : forall want freed s acc s' vs f,
+    Inv s ->
+    evict_loop one fuel want freed s acc = (s', vs, f) ->
+    (length (tr s) <= fuel)%nat ->
+    exists V, vs = rev acc ++ keys V /\ f = freed + total V
+      /\ Permutation (tr s) (V ++ tr s') /\ Inv s'
+      /\ (want <= f \/ one s' = None \/ tr s' = []).
+  Proof.
+    induction fuel as [|fu IH]; intros want freed s acc s' vs f HI H Hlen; cbn [evict_loop] in H.
+    - inversion H; subst. exists []. cbn [keys map app total]. repeat split.
+      + rewrite app_nil_r. reflexivity.
+      + lia.
+      + apply Permutation_refl.
+      + exact HI.
+      + right. right. destruct (tr s'); [reflexivity | cbn [length] in Hlen; lia].
+    - destruct (N.ltb_spec freed want) as [Hlt|Hge].
+      + destruct (one s) as [[v s1]|] eqn:E.
+        * destruct (one_some _ _ _ HI E) as [HP HI1].
+          assert (Hlen1 : (length (tr s1) <= fu)%nat).
+          { apply Permutation_length in HP. cbn [length] in HP. lia. }
+          destruct (IH _ _ _ _ _ _ _ HI1 H Hlen1) as [V [Hv [Hf [HP2 [HI2 Hs]]]]].
+          exists (ekc v :: V). cbn [keys map fst app total]. repeat split.
+          -- rewrite Hv. cbn [rev]. rewrite <- app_assoc. reflexivity.
+          -- rewrite Hf. unfold ekc, ecost. destruct v as [[vk vc] vf]. cbn [fst snd]. lia.
+          -- eapply Permutation_trans; [exact HP|]. constructor. exact HP2.
+          -- exact HI2.
+          -- exact Hs.
+        * inversion H; subst. exists []. cbn [keys map app total]. repeat split.
+          -- rewrite app_nil_r. reflexivity.
+          -- lia.
+          -- apply Permutation_refl.
+          -- exact HI.
+          -- right. left. exact E.
+      + inversion H; subst. exists []. cbn [keys map app total]. repeat split.
+        * rewrite app_nil_r. reflexivity.
+        * lia.
+        * apply Permutation_refl.
+        * exact HI.
+        * left. lia.
+  Qed.
+End LoopInv.
+
+(** Every clause of the contract keeps the tracked keys duplicate-free, so for a
+    policy whose invariant is just [NoDup (keys tracked)] the per-step clauses
+    are all that has to be proved. *)
+Lemma filter_keys_In (f : kc -> bool) l x : In x (keys (filter f l)) -> In x (keys l).
+Proof.
+  unfold keys. rewrite !in_map_iff. intros [p [Hp Hi]]. apply filter_In in Hi.
+  exists p. tauto.
+Qed.
+
+Lemma filter_keys_NoDup (f : kc -> bool) l : NoDup (keys l) -> NoDup (keys (filter f l)).
+Proof.
+  induction l as [|[k c] t IH]; cbn [filter keys map fst]; intros H; [constructor|].
+  inversion H as [|? ? Hni Hnd]; subst.
+  destruct (f (k, c)); [|apply IH; exact Hnd].
+  cbn [keys map fst]. constructor; [|apply IH; exact Hnd].
+  intros Hi. apply Hni. eapply filter_keys_In. exact Hi.
+Qed.
+
+Lemma without_NoDup vs l : NoDup (keys l) -> NoDup (keys (without vs l)).
+Proof. apply filter_keys_NoDup. Qed.
+
+Lemma without_keys_In vs l x : In x (keys (without vs l)) -> In x (keys l).
+Proof. apply filter_keys_In. Qed.
+
+Lemma NoDup_cons_rm k c l : NoDup (keys l) -> NoDup (keys ((k, c) :: rm k l)).
+Proof.
+  intros H. cbn [keys map fst]. constructor; [apply rm_not_in | apply rm_NoDup; exact H].
+Qed.
+
+Lemma perm_NoDup_keys a b : Permutation b a -> NoDup (keys a) -> NoDup (keys b).
+Proof. intros P H. eapply NoDup_keys_perm; [apply Permutation_sym; exact P | exact H]. Qed.
+
+Lemma access_keep_NoDup T T' k c : NoDup (keys T) -> access_keep T T' k c -> NoDup (keys T').
+Proof. intros H P. eapply perm_NoDup_keys; eauto. Qed.
+
+Lemma access_update_NoDup T T' k c : NoDup (keys T) -> access_update T T' k c -> NoDup (keys T').
+Proof.
+  unfold access_update. intros H P. destruct (lookup k T).
+  - eapply perm_NoDup_keys; [exact P | apply NoDup_cons_rm; exact H].
+  - eapply perm_NoDup_keys; eauto.
+Qed.
+
+Lemma admit_full_NoDup T T' k c : NoDup (keys T) -> admit_full T T' k c -> NoDup (keys T').
+Proof. intros H P. eapply perm_NoDup_keys; [exact P | apply NoDup_cons_rm; exact H]. Qed.
+
+Lemma admit_keep_old_NoDup T T' k c : NoDup (keys T) -> admit_keep_old T T' k c -> NoDup (keys T').
+Proof.
+  unfold admit_keep_old. intros H P. destruct (lookup k T) eqn:E.
+  - eapply perm_NoDup_keys; eauto.
+  - eapply perm_NoDup_keys; [exact P|]. cbn [keys map fst].
+    constructor; [apply lookup_None; exact E | exact H].
+Qed.
+
+Lemma admit_demote_NoDup T T' k c : NoDup (keys T) -> admit_demote T T' k c -> NoDup (keys T').
+Proof.
+  intros H [D [_ [_ [_ P]]]]. eapply perm_NoDup_keys; [exact P|].
+  apply NoDup_cons_rm. apply without_NoDup. exact H.
+Qed.
+
+Lemma admit_evict_full_NoDup T T' k c vs :
+  NoDup (keys T) -> admit_evict_full T T' k c vs -> NoDup (keys T').
+Proof.
+  intros H [_ [_ P]]. eapply perm_NoDup_keys; [exact P|].
+  apply without_NoDup. apply NoDup_cons_rm. exact H.
+Qed.
+
+Lemma evict_core_NoDup T T' vs c : NoDup (keys T) -> evict_core T T' vs c -> NoDup (keys T').
+Proof.
+  intros H [_ [_ [_ P]]]. eapply perm_NoDup_keys; [exact P | apply without_NoDup; exact H].
+Qed.
+
+Definition keeps_nodup4 (cl : list kc -> list kc -> N -> N -> Prop) : Prop :=
+  forall T T' k c, NoDup (keys T) -> cl T T' k c -> NoDup (keys T').
+
+Lemma contractG_lift_nodup (acc adm : list kc -> list kc -> N -> N -> Prop)
+      (ev : list kc -> list kc -> N -> list N -> N -> Prop) (P : policy) :
+  keeps_nodup4 acc -> keeps_nodup4 adm ->
+  (forall T T' n vs c, ev T T' n vs c -> evict_core T T' vs c) ->
+  NoDup (keys (ptracked P (pinit P))) ->
+  (forall s cl, NoDup (keys (ptracked P s)) ->
+     let '(s', o) := pstep P s cl in step_okG acc adm ev (ptracked P s) cl o (ptracked P s')) ->
+  contractG acc adm ev P.
+Proof.
+  intros Hacc Hadm Hev Hinit Hok.
+  apply (contractG_lift acc adm ev P (fun s => NoDup (keys (ptracked P s)))).
+  - exact Hinit.
+  - intros s cl HI. specialize (Hok s cl HI).
+    destruct (pstep P s cl) as [s' o]. cbn [fst].
+    destruct cl as [k c|k c|k|n|]; destruct o as [| | |vs|vs c0]; cbn [step_okG] in Hok;
+      try contradiction.
+    + eapply Hacc; eauto.
+    + eapply Hadm; eauto.
+    + eapply admit_evict_full_NoDup; eauto.
+    + eapply perm_NoDup_keys; [exact Hok | apply rm_NoDup; exact HI].
+    + eapply evict_core_NoDup; [exact HI | eapply Hev; exact Hok].
+    + rewrite Hok. constructor.
+  - intros s H. exact H.
+  - exact Hok.
+Qed.
+
+(** the contract is monotone in its clauses: refuting a weakened statement
+    refutes every stronger one, in particular the full one *)
+Lemma contractG_mono (acc acc' adm adm' : list kc -> list kc -> N -> N -> Prop)
+      (ev ev' : list kc -> list kc -> N -> list N -> N -> Prop) (P : policy) :
+  (forall T T' k c, acc T T' k c -> acc' T T' k c) ->
+  (forall T T' k c, adm T T' k c -> adm' T T' k c) ->
+  (forall T T' n vs c, ev T T' n vs c -> ev' T T' n vs c) ->
+  contractG acc adm ev P -> contractG acc' adm' ev' P.
+Proof.
+  intros Hacc Hadm Hev H cs. specialize (H cs). cbv zeta in *. destruct H as [Hnd H].
+  split; [exact Hnd|]. intros cl. specialize (H cl).
+  destruct (pstep P (pstate_after P cs) cl) as [s' o].
+  destruct cl as [k c|k c|k|n|]; destruct o as [| | |vs|vs c0]; cbn [step_okG] in *; auto.
 Qed.
